@@ -18,6 +18,14 @@
 
     `to_tk_register_lists`, `to_tk_commands_on_units` — the invariants of the two Python lists.
 
+    `to_tk_keeps_post_selections` — for EVERY circuit, inside or outside the fragment: a successful
+    export has exactly one post-selected bit per post-selected qubit (`Bra` bit) of the circuit,
+    under distinct keys that are bits of the exported circuit.  The renamings of
+    `tk.Circuit.rename_units` (tk.py:71-83: the shift of `prepare_bits`, the transposition of a
+    bit swap) never lose or merge an entry, because all old keys are deleted before the new ones
+    are written; `chain_shift_keeps_both` is the instance 1 -> 2, 2 -> 3 (in the region of F23),
+    `chain_shift_inside` one inside the fragment.
+
   What is NOT true of the code and therefore not claimed (`Tk.ToTkRefines`, `Tk.ToTkTotal` are the
   full statements, kept as `Prop`s; their negations are theorems below): outside the fragment the
   export is wrong.  Every remaining excluding condition has a concrete counter-witness here, and
@@ -69,6 +77,7 @@
 -/
 import Proofs.TkWitness
 import Proofs.TkImportRank
+import Proofs.TkPsCount
 
 namespace DV.C13
 open DV DV.Tk
@@ -90,6 +99,34 @@ theorem to_tk_register_lists (c : Circ) (st : St) (hclean : c.clean = true) (h :
 theorem to_tk_commands_on_units (c : Circ) (st : St) (hclean : c.clean = true) (h : toTk c = .ok st) :
     ∀ cmd ∈ st.cmds, (∀ q ∈ cmd.qs, q < st.nq) ∧ (∀ b ∈ cmd.bs, b < st.nb) :=
   Tk.toTk_cmds_live hclean h
+
+/-- **No post-selection is lost**, for every circuit (no `clean` hypothesis): the exported
+    `post_selection` has one entry per `Bra` bit of the circuit, its keys are distinct and they are
+    bits of the exported circuit. -/
+theorem to_tk_keeps_post_selections (c : Circ) (st : St) (h : toTk c = .ok st) :
+    st.ps.length = braBits c.layers ∧ (st.ps.map (·.1)).Nodup ∧ ∀ e ∈ st.ps, e.1 < st.nb :=
+  Tk.toTk_ps_count h
+
+/-- `Bits(0) @ Ket(1, 0) >> Id(bit) @ Bra(1, 0) >> Bits(0) @ Id(bit)` (region of F23): the two
+    post-selected bits 1, 2 are shifted to 2, 3 — the new index of the first is the old index of
+    the second — and both survive with their values. -/
+theorem chain_shift_keeps_both :
+    (⟨[], [(.bits [0] false, 0), (.ket [1, 0], 1), (.bra [1, 0], 1), (.bits [0] false, 0)]⟩ : Circ).firstViolation
+        = some ("bits_left_of_bit", 4) ∧
+      (toTk ⟨[], [(.bits [0] false, 0), (.ket [1, 0], 1), (.bra [1, 0], 1), (.bits [0] false, 0)]⟩).map (·.ps)
+        = .ok [(2, 1), (3, 0)] := by decide
+
+/-- `Ket(1, 0) @ Bits(0) >> Bra(1, 0) @ Id(bit) >> Id(bit) @ Bits(0)`: the same shift inside the fragment. -/
+theorem chain_shift_inside :
+    (⟨[], [(.ket [1, 0], 0), (.bits [0] false, 2), (.bra [1, 0], 0), (.bits [0] false, 1)]⟩ : Circ).clean = true ∧
+      (toTk ⟨[], [(.ket [1, 0], 0), (.bits [0] false, 2), (.bra [1, 0], 0), (.bits [0] false, 1)]⟩).map (·.ps)
+        = .ok [(2, 1), (3, 0)] := by decide
+
+/-- The hypotheses of `to_tk_keeps_post_selections` are met by a circuit with three post-selected
+    qubits made at different times, a measured bit in between and a shift by two. -/
+example : ∃ st, toTk ⟨[], [(.ket [1, 1, 0, 1], 0), (.measure 1 true false, 0), (.bra [1], 1),
+      (.measure 1 true false, 1), (.bra [1], 2), (.bits [0, 0] false, 0)]⟩ = .ok st ∧ st.ps.length = 2 ∧ st.nb = 6 := by
+  refine ⟨_, rfl, ?_, ?_⟩ <;> decide
 
 /-- The full statement is false for the code as it is … -/
 theorem to_tk_refines_fails : ¬ Tk.ToTkRefines := Tk.not_toTkRefines
